@@ -903,7 +903,14 @@ where
             counter
         ));
 
-        let config = MmapVecConfig::default();
+        let data_bytes = capacity.checked_mul(std::mem::size_of::<T>());
+        if data_bytes.map_or(true, |b| b > isize::MAX as usize - HEADER_SIZE) {
+            return Err(ZiporaError::invalid_data("Capacity too large"));
+        }
+
+        // The mapping must hold at least `capacity` elements: they are zero-filled below
+        let mut config = MmapVecConfig::default();
+        config.initial_capacity = config.initial_capacity.max(capacity);
         let mut vec = Self::create(&file_path, config)?;
         vec.is_temp_file = true; // Mark as temporary for cleanup
 
